@@ -59,7 +59,7 @@ Proof. apply (@prim_iter_greedy _ (kops_of F32 meth) p (@f32_trans meth) (@f32_i
    the returned dendrogram are the threshold components, for every non-NaN
    threshold ---- *)
 Require Import KV.Model.Linkage KV.Proofs.SortProofs KV.Proofs.RelabelWF KV.Proofs.PrimThreshold KV.Proofs.MstPrim
-  KV.Proofs.MstCuts KV.Proofs.SubCarrier KV.Proofs.SpanningTrees KV.Proofs.MstWeights.
+  KV.Proofs.MstCuts KV.Proofs.SubCarrier KV.Proofs.SpanningTrees KV.Proofs.MstWeights KV.Proofs.Shape KV.Proofs.AgreeSingle KV.Proofs.SingleReplay.
 From Flocq Require Import IEEE754.PrimFloat.
 
 Definition ok64 (x : PrimFloat.float) : bool := negb (PrimFloat.is_nan x).
@@ -281,4 +281,101 @@ Proof.
   - eapply Forall_impl; [|exact Hfin]. intros v Hv. apply lt_inf_ok32. exact Hv.
   - exact Hfin.
   - intros t Ht v. unfold ok32 in Ht. apply negb_false_iff in Ht. cbn [F32 f_ltb]. apply Bltb_nan_l. exact Ht.
+Qed.
+
+(* ---- C06 for Method::Single on the two float carriers: any two of the five entry points,
+   every finite input: when the heights returned by one are pairwise distinct, the other
+   returns the same labels and sizes in the same step order, and heights that compare equal
+   position by position ---- *)
+Theorem single_same_dendrogram_f64 (p : profile) (a1 a2 : algo) s1 d1 s2 d2 (m : list PrimFloat.float) (n : N)
+  sr1 dr1 mr1 sr2 dr2 mr2 M0 :
+  (n < two32)%N ->
+  run_with F64 p a1 Single s1 d1 m n = Ok (sr1, dr1, mr1) ->
+  run_with F64 p a2 Single s2 d2 m n = Ok (sr2, dr2, mr2) ->
+  prologue p m n = Ok M0 -> 1 <= m_obs M0 ->
+  Forall (fun v => PrimFloat.ltb v (f_inf F64) = true) m ->
+  strictly F64 (heights dr1) ->
+  length (d_steps dr1) = length (d_steps dr2)
+  /\ forall i t t', nth_error (d_steps dr1) i = Some t -> nth_error (d_steps dr2) i = Some t' ->
+       s_c1 t = s_c1 t' /\ s_c2 t = s_c2 t' /\ s_size t = s_size t' /\ eqv PrimFloat.ltb (s_dis t) (s_dis t').
+Proof.
+  intros Hn32 H1 H2 HM0 Hn1 Hfin Hstrict.
+  apply (@single_same_dendrogram_carrier _ F64 ok64 eq_refl eq_refl f64_ltb_irrefl f64_ltb_trans
+           ltac:(intros x y z Hx Hy Hz; apply f64_ltb_negtrans; unfold ok64 in *;
+                 [destruct (PrimFloat.is_nan x)|destruct (PrimFloat.is_nan y)|destruct (PrimFloat.is_nan z)]; (reflexivity || discriminate))
+           f64_eqb_not_lt f64_eqb_refl_ok p a1 a2 s1 d1 s2 d2 m n sr1 dr1 mr1 sr2 dr2 mr2 M0 Hn32 H1 H2 HM0 Hn1).
+  - eapply Forall_impl; [|exact Hfin]. intros v Hv. apply lt_inf_ok64. exact Hv.
+  - exact Hfin.
+  - exact Hstrict.
+Qed.
+
+Theorem single_same_dendrogram_f32 (p : profile) (a1 a2 : algo) s1 d1 s2 d2 (m : list f32) (n : N)
+  sr1 dr1 mr1 sr2 dr2 mr2 M0 :
+  (n < two32)%N ->
+  run_with F32 p a1 Single s1 d1 m n = Ok (sr1, dr1, mr1) ->
+  run_with F32 p a2 Single s2 d2 m n = Ok (sr2, dr2, mr2) ->
+  prologue p m n = Ok M0 -> 1 <= m_obs M0 ->
+  Forall (fun v => Bltb v (f_inf F32) = true) m ->
+  strictly F32 (heights dr1) ->
+  length (d_steps dr1) = length (d_steps dr2)
+  /\ forall i t t', nth_error (d_steps dr1) i = Some t -> nth_error (d_steps dr2) i = Some t' ->
+       s_c1 t = s_c1 t' /\ s_c2 t = s_c2 t' /\ s_size t = s_size t' /\ eqv (@Bltb 24 128) (s_dis t) (s_dis t').
+Proof.
+  intros Hn32 H1 H2 HM0 Hn1 Hfin Hstrict.
+  apply (@single_same_dendrogram_carrier _ F32 ok32 eq_refl eq_refl (@Bltb_irrefl 24 128) (@Bltb_trans 24 128)
+           ltac:(intros x y z Hx Hy Hz; apply (@Bltb_negtrans 24 128); unfold ok32 in *;
+                 [destruct (BinarySingleNaN.is_nan x)|destruct (BinarySingleNaN.is_nan y)|destruct (BinarySingleNaN.is_nan z)]; (reflexivity || discriminate))
+           (@Beqb_not_lt 24 128) f32_eqb_refl_ok p a1 a2 s1 d1 s2 d2 m n sr1 dr1 mr1 sr2 dr2 mr2 M0 Hn32 H1 H2 HM0 Hn1).
+  - eapply Forall_impl; [|exact Hfin]. intros v Hv. apply lt_inf_ok32. exact Hv.
+  - exact Hfin.
+  - exact Hstrict.
+Qed.
+
+(* ---- C03 for Method::Single on the two float carriers, every entry point, every finite input ---- *)
+Theorem single_replay_greedy_f64 (p : profile) (a : algo) s d (m : list PrimFloat.float) (n : N) s' d' m' M0 :
+  (n < two32)%N ->
+  run_with F64 p a Single s d m n = Ok (s', d', m') ->
+  prologue p m n = Ok M0 -> 1 <= m_obs M0 ->
+  Forall (fun v => PrimFloat.ltb v (f_inf F64) = true) m ->
+  (forall j t, nth_error (d_steps d') j = Some t ->
+     forall x y, x < m_obs M0 -> y < m_obs M0 ->
+       labi (m_obs M0) (d_steps d') j x <> labi (m_obs M0) (d_steps d') j y ->
+       PrimFloat.ltb (dcell (kops_of F64 Single) M0 x y) (s_dis t) = false)
+  /\ (strictly F64 (heights d') ->
+      forall j t, nth_error (d_steps d') j = Some t ->
+      exists x y, x < m_obs M0 /\ y < m_obs M0
+        /\ labi (m_obs M0) (d_steps d') j x = s_c1 t /\ labi (m_obs M0) (d_steps d') j y = s_c2 t
+        /\ PrimFloat.ltb (s_dis t) (dcell (kops_of F64 Single) M0 x y) = false).
+Proof.
+  intros Hn32 H HM0 Hn1 Hfin.
+  apply (@single_replay_greedy_carrier _ F64 ok64 eq_refl eq_refl f64_ltb_irrefl f64_ltb_trans
+           ltac:(intros x y z Hx Hy Hz; apply f64_ltb_negtrans; unfold ok64 in *;
+                 [destruct (PrimFloat.is_nan x)|destruct (PrimFloat.is_nan y)|destruct (PrimFloat.is_nan z)]; (reflexivity || discriminate))
+           f64_eqb_not_lt f64_eqb_refl_ok p a s d m n s' d' m' M0 Hn32 H HM0 Hn1).
+  - eapply Forall_impl; [|exact Hfin]. intros v Hv. apply lt_inf_ok64. exact Hv.
+  - exact Hfin.
+Qed.
+
+Theorem single_replay_greedy_f32 (p : profile) (a : algo) s d (m : list f32) (n : N) s' d' m' M0 :
+  (n < two32)%N ->
+  run_with F32 p a Single s d m n = Ok (s', d', m') ->
+  prologue p m n = Ok M0 -> 1 <= m_obs M0 ->
+  Forall (fun v => Bltb v (f_inf F32) = true) m ->
+  (forall j t, nth_error (d_steps d') j = Some t ->
+     forall x y, x < m_obs M0 -> y < m_obs M0 ->
+       labi (m_obs M0) (d_steps d') j x <> labi (m_obs M0) (d_steps d') j y ->
+       Bltb (dcell (kops_of F32 Single) M0 x y) (s_dis t) = false)
+  /\ (strictly F32 (heights d') ->
+      forall j t, nth_error (d_steps d') j = Some t ->
+      exists x y, x < m_obs M0 /\ y < m_obs M0
+        /\ labi (m_obs M0) (d_steps d') j x = s_c1 t /\ labi (m_obs M0) (d_steps d') j y = s_c2 t
+        /\ Bltb (s_dis t) (dcell (kops_of F32 Single) M0 x y) = false).
+Proof.
+  intros Hn32 H HM0 Hn1 Hfin.
+  apply (@single_replay_greedy_carrier _ F32 ok32 eq_refl eq_refl (@Bltb_irrefl 24 128) (@Bltb_trans 24 128)
+           ltac:(intros x y z Hx Hy Hz; apply (@Bltb_negtrans 24 128); unfold ok32 in *;
+                 [destruct (BinarySingleNaN.is_nan x)|destruct (BinarySingleNaN.is_nan y)|destruct (BinarySingleNaN.is_nan z)]; (reflexivity || discriminate))
+           (@Beqb_not_lt 24 128) f32_eqb_refl_ok p a s d m n s' d' m' M0 Hn32 H HM0 Hn1).
+  - eapply Forall_impl; [|exact Hfin]. intros v Hv. apply lt_inf_ok32. exact Hv.
+  - exact Hfin.
 Qed.
